@@ -73,6 +73,7 @@ let ev_of_tok (t : S.t) : Model.ev =
   else if starts t "NS" then Model.VState (num t 2)
   else if t = "BH" then Model.VBH
   else if t = "T0s" then Model.VTask
+  else if t = "TD" then Model.VTcpDial
   else Model.VOther
 
 let to_obs (p : parsed) : Model.obs =
